@@ -147,12 +147,45 @@ def _to_symbolic_repr(model: Model) -> SymbolicRepr:
     return sym
 
 
+def _register_fn(
+    functions: dict[str, tuple[sympy.Expr, list[str]]],
+    name: str,
+    component: str,
+    expr: sympy.Expr,
+    args: list[str],
+) -> str:
+    """Register a function definition and return the name it is emitted under.
+
+    One Python function may serve several components (the definitions then
+    only differ in their argument names), but different functions can share a
+    ``__name__``. Those must not overwrite each other, so a clashing
+    definition is emitted under a name made unique with the component name.
+    """
+
+    def same(a: tuple[sympy.Expr, list[str]], b: tuple[sympy.Expr, list[str]]) -> bool:
+        if len(a[1]) != len(b[1]):
+            return False
+        dummies = [sympy.Symbol(f"__arg{i}") for i in range(len(a[1]))]
+        lhs = a[0].xreplace(dict(zip(map(sympy.Symbol, a[1]), dummies, strict=True)))
+        rhs = b[0].xreplace(dict(zip(map(sympy.Symbol, b[1]), dummies, strict=True)))
+        return bool(lhs == rhs)
+
+    unique = name
+    while (existing := functions.get(unique)) is not None and not same(
+        existing, (expr, args)
+    ):
+        unique = f"{unique}_{component}"
+    functions[unique] = (expr, args)
+    return unique
+
+
 def _codegen_variable(
     k: str, var: SymbolicVariable, functions: dict[str, tuple[sympy.Expr, list[str]]]
 ) -> str:
     if isinstance(init := var.value, SymbolicFn):
-        fn_name = f"init_{init.fn_name}"
-        functions[fn_name] = (init.expr, init.args)
+        fn_name = _register_fn(
+            functions, f"init_{init.fn_name}", k, init.expr, init.args
+        )
         return f"""        .add_variable(
             {k!r},
             initial_value=InitialAssignment(fn={fn_name}, args={init.args!r}),
@@ -168,8 +201,9 @@ def _codegen_parameter(
     k: str, par: SymbolicParameter, functions: dict[str, tuple[sympy.Expr, list[str]]]
 ) -> str:
     if isinstance(init := par.value, SymbolicFn):
-        fn_name = f"init_{init.fn_name}"
-        functions[fn_name] = (init.expr, init.args)
+        fn_name = _register_fn(
+            functions, f"init_{init.fn_name}", k, init.expr, init.args
+        )
         return f"""        .add_parameter(
             {k!r},
             value=InitialAssignment(fn={fn_name}, args={init.args!r}),
@@ -206,11 +240,11 @@ def generate_mxlpy_code_from_symbolic_repr(
     # Derived
     derived_source = []
     for k, fn in model.derived.items():
-        functions[fn.fn_name] = (fn.expr, fn.args)
+        fn_name = _register_fn(functions, fn.fn_name, k, fn.expr, fn.args)
         derived_source.append(
             f"""        .add_derived(
                 {k!r},
-                fn={fn.fn_name},
+                fn={fn_name},
                 args={fn.args},
             )"""
         )
@@ -219,13 +253,18 @@ def generate_mxlpy_code_from_symbolic_repr(
     reactions_source = []
     for k, rxn in model.reactions.items():
         fn = rxn.fn
-        functions[fn.fn_name] = (fn.expr, fn.args)
+        rxn_fn_name = _register_fn(functions, fn.fn_name, k, fn.expr, fn.args)
 
         stoichiometry: list[str] = []
         for var, stoich in rxn.stoichiometry.items():
             if isinstance(stoich, SymbolicFn):
-                fn_name = f"{k}_stoich_{stoich.fn_name}"
-                functions[fn_name] = (stoich.expr, stoich.args)
+                fn_name = _register_fn(
+                    functions,
+                    f"{k}_stoich_{stoich.fn_name}",
+                    var,
+                    stoich.expr,
+                    stoich.args,
+                )
                 stoichiometry.append(
                     f""""{var}": Derived(fn={fn_name}, args={stoich.args!r})"""
                 )
@@ -236,7 +275,7 @@ def generate_mxlpy_code_from_symbolic_repr(
         reactions_source.append(
             f"""        .add_reaction(
                 "{k}",
-                fn={fn.fn_name},
+                fn={rxn_fn_name},
                 args={fn.args},
                 stoichiometry={{{",".join(stoichiometry)}}},
             )"""
